@@ -1,7 +1,7 @@
 (* Props/C02.v — property C02: expression text parses to the tree the precedence rules dictate.
    ONLY statements; every proof is `exact <lemma of Proofs/C02.v>`.  The model
    (Model/ExprParser.v) runs on regexes and the precedence table REGENERATED from parser.py. *)
-From BS Require Import Model.Base Model.Regex Model.ExprParser Gen.Tables Gen.Regexes Proofs.C02.
+From BS Require Import Model.Base Model.Regex Model.NumText Model.ExprParser Gen.Unicode Gen.Tables Gen.Regexes Proofs.C02 Proofs.C13rx Proofs.C02rx.
 
 (* the regenerated BINARY_REORDER table is exactly "strictly lower documented level" *)
 Theorem C02_table_is_level_order : forall a b,
@@ -20,6 +20,23 @@ Print Assumptions C02_table_has_the_documented_operators.
 Theorem C02_sound : forall text e, parse_expression text = EOk e -> ops_known e -> WP e.
 Proof. exact parse_expression_WP. Qed.
 Print Assumptions C02_sound.
+
+(* UPGRADE: the side condition `ops_known e` is a theorem.  The engine's answer on the regenerated _R_EXPR_BINARY_OP is,
+   for every text, "skip white space, then the first of the fourteen spellings (in the pattern's alternation order:
+   ** before *, <= before <, ...) that the rest starts with" (C02_binary_op_engine), so the operator of every binary node
+   is one of the fourteen documented operators, and every tree parse_expression returns is well-precedenced. *)
+Theorem C02_sound_total : forall text e, parse_expression text = EOk e -> WP e.
+Proof. exact parse_expression_WP_total. Qed.
+Print Assumptions C02_sound_total.
+
+Theorem C02_operators_are_documented : forall text e, parse_expression text = EOk e -> ops_known e.
+Proof. exact parse_expression_known. Qed.
+Print Assumptions C02_operators_are_documented.
+
+Theorem C02_operator_token : forall text e c, rx R_EXPR_BINARY_OP text = MYes e c ->
+  In (grp text c 1) spec_ops /\ e = fst (span_p is_space_u text) + length (grp text c 1).
+Proof. exact binop_token. Qed.
+Print Assumptions C02_operator_token.
 
 (* the parser is the left fold of the spine insertion over the chain it reads left to right ... *)
 Theorem C02_chain : forall fuel text e rest,
@@ -45,6 +62,61 @@ Print Assumptions C02_complete.
 Theorem C02_unique : forall t1 t2, WP t1 -> WP t2 -> pairs t1 = pairs t2 -> t1 = t2.
 Proof. exact WP_unique. Qed.
 Print Assumptions C02_unique.
+
+(* ---- LEXING: what the regex engine (Model/Regex.v, with the fuel re_match gives it) answers on the REGENERATED token
+   patterns, as direct functions of the text, for EVERY text (Proofs/RegexEval.v + Proofs/C02rx.v; the statements are about
+   the generated constants, so a changed pattern in parser.py breaks them).  Every token is  ^\s*B : the white-space run is
+   fst/snd (span_p is_space_u s).  Not given a direct description: the two string literals and the bracketed variable name
+   (their bodies  \\\\|\\'|[^']  are ambiguous, the answer depends on the backtracking order; the parser model runs the
+   engine on them and the theorems above hold whatever they answer). *)
+Theorem C02_binary_op_engine : forall s,
+  re_match UC R_EXPR_BINARY_OP s =
+  match op_len (snd (span_p is_space_u s)) with
+  | Some n => MYes (fst (span_p is_space_u s) + n) (cap1 (fst (span_p is_space_u s)) n)
+  | None => MNo
+  end.
+Proof. exact binop_answer. Qed.
+Print Assumptions C02_binary_op_engine.
+Theorem C02_unary_op_engine : forall s,
+  re_match UC R_EXPR_UNARY_OP s =
+  match unop_body (snd (span_p is_space_u s)) with
+  | Some n => MYes (fst (span_p is_space_u s) + n) (cap1 (fst (span_p is_space_u s)) n)
+  | None => MNo
+  end.
+Proof. exact unary_answer. Qed.
+Print Assumptions C02_unary_op_engine.
+Theorem C02_punctuation_engine : forall s,
+  let one x := match lit_body x (snd (span_p is_space_u s)) with Some n => MYes (fst (span_p is_space_u s) + n) [] | None => MNo end in
+  re_match UC R_EXPR_GROUP_OPEN s = one 40%N /\ re_match UC R_EXPR_GROUP_CLOSE s = one 41%N /\
+  re_match UC R_EXPR_FUNCTION_CLOSE s = one 41%N /\ re_match UC R_EXPR_FUNCTION_SEPARATOR s = one 44%N.
+Proof. exact punctuation_answers. Qed.
+Print Assumptions C02_punctuation_engine.
+Theorem C02_variable_engine : forall s,
+  re_match UC R_EXPR_VARIABLE s =
+  match ident_body (snd (span_p is_space_u s)) with
+  | Some n => MYes (fst (span_p is_space_u s) + n) (cap1 (fst (span_p is_space_u s)) n)
+  | None => MNo
+  end.
+Proof. exact variable_answer. Qed.
+Print Assumptions C02_variable_engine.
+Theorem C02_function_open_engine : forall s,
+  re_match UC R_EXPR_FUNCTION_OPEN s =
+  match call_body (snd (span_p is_space_u s)) with
+  | Some (n, m) => MYes (fst (span_p is_space_u s) + m) (cap1 (fst (span_p is_space_u s)) n)
+  | None => MNo
+  end.
+Proof. exact function_open_answer. Qed.
+Print Assumptions C02_function_open_engine.
+Theorem C02_number_engine : forall s,
+  re_match UC R_EXPR_NUMBER s = match lit_match s with Some (a, e) => MYes e [(1%nat, (a, e))] | None => MNo end.
+Proof. exact number_regex_answer. Qed.
+Print Assumptions C02_number_engine.
+(* the direct descriptions are not vacuous: they accept and reject *)
+Theorem C02_lexing_nonvacuous :
+  op_len (U "**2") = Some 2%nat /\ op_len (U "*2") = Some 1%nat /\ op_len (U "<=") = Some 2%nat /\ op_len (U "=") = None /\
+  ident_body (U "ab1 + c") = Some 3%nat /\ ident_body (U "1a") = None /\
+  call_body (U "fn  (x)") = Some (2%nat, 5%nat) /\ call_body (U "f(x)") = None /\ lit_match (U " 12.5e+3x") = Some (1%nat, 8%nat).
+Proof. exact lexing_samples. Qed.
 
 (* non-vacuity *)
 Theorem C02_nonvacuous :
